@@ -192,4 +192,18 @@ example : ∃ C : Ctx 11 1 6, OnCurve.MatchesL OnCurve.toyCrvL C := OnCurve.toy_
 
 end Legacy
 
+/-! ### evaluated on the model of the REAL point classes (closed instance, no hypothesis; kernel evaluation through
+`PointJacobi.__mul__` / `mul_add` / `x()` as written): toy curve y² = x³ + x + 6 over 𝔽₁₁, G = (2,7), n = 13,
+driver token `11,1,6,2,7,13,1,j`; secret d = 3, public point Q = 3G = (8,3) -/
+set_option maxRecDepth 4000 in
+example :
+    let Q : Curve.Pt := .jac ⟨OnCurve.crvOf OnCurve.toyCrv, 8, 3, 1, some 13, false⟩
+    fromSecretExponent (OnCurve.ops OnCurve.toyCrv) 3 = .ok Q
+    ∧ signDigest (OnCurve.ops OnCurve.toyCrv) 3 [0x50] (some 2) (fun _ => .error .other) encDer true = .ok [48, 6, 2, 1, 5, 2, 1, 10]
+    ∧ verifyDigest (OnCurve.ops OnCurve.toyCrv) Q Util.sigdecodeDer [48, 6, 2, 1, 5, 2, 1, 10] [0x50] true = .ok true
+    -- low-S encoder: s = 10 > 13 // 2 is reflected to 3, and still verifies
+    ∧ signDigest (OnCurve.ops OnCurve.toyCrv) 3 [0x50] (some 2) (fun _ => .error .other) encStringCanonize true = .ok [5, 3]
+    ∧ verifyDigest (OnCurve.ops OnCurve.toyCrv) Q Util.sigdecodeString [5, 3] [0x50] true = .ok true := by
+  decide +kernel
+
 end C01
